@@ -56,6 +56,9 @@ var floatPool = []float64{
 	// integer valued beyond the 64 bit integer types, both signs
 	-1e19, -12345678901234567890.0, -9223372036854777856.0, -18446744073709551616.0, -1.5e19, -1e20, -3e25,
 	3e19, 36893488147419103232.0, 1e30, -1e30,
+	// integer valued inside the span of the 64 bit integer types, at its limits
+	9223372036854775808.0, -9223372036854775808.0, 9223372036854774784.0, 9223372036854777856.0, -9223372036854774784.0,
+	18446744073709549568.0, 4611686018427387904.0, -4611686018427387904.0, 9007199254740994.0, -9007199254740992.0, 1e18, 1e19,
 }
 
 // beyond64 says that f is an integer no 64 bit integer type holds and whose
@@ -115,6 +118,18 @@ func genFloat(r *rand.Rand) float64 {
 				return f
 			}
 		}
+	}
+	if r.Intn(9) == 0 {
+		// an integer a float64 holds, inside the span of the 64 bit integer
+		// types: 2^k (k = 53..64) or anything between 2^53 and 2^64, both signs
+		f := math.Ldexp(1, 53+r.Intn(12))
+		if r.Intn(2) == 0 {
+			f = math.Trunc(math.Ldexp(1+r.Float64(), 53+r.Intn(11)))
+		}
+		if r.Intn(3) == 0 {
+			f = -f
+		}
+		return f
 	}
 	switch r.Intn(6) {
 	case 0:
